@@ -193,8 +193,32 @@ def native_extras():
     return out
 
 
+def check_mode(p):
+    """bounded native stand-in (run as a Task): the incumbent clauses on fitness sequences with
+    ties and NON-FINITE values (NaN, +inf, -inf), which the real-arithmetic proof cannot express"""
+    import json
+
+    seqs = [[3.0, float("nan"), 5.0, 4.0], [float("nan"), 2.0, 1.0], [float("inf"), 2.0, float("nan"), 2.0], [float("nan"), float("nan")],
+            [float("-inf"), 1.0, float("-inf")], [1.0, 1.0, float("nan"), 1.0], [2.0, float("inf"), 1.0, float("nan"), 0.5, 0.5]]
+    obs = {}
+    cases = 0
+    for (n, P), fbs, mx in itertools.product([(2, 6), (1, 4), (3, 7)], seqs, (False, True)):
+        b, _ = check_history(n, P, fbs, mx)
+        cases += 1
+        for name, key in (("incumbent.best_fitness_is_best_evaluated_so_far[non-finite]", "best_fitness"), ("incumbent.best_params_is_the_achieving_candidate[non-finite]", "best_params"),
+                          ("incumbent.tells_are_counted[non-finite]", "it=")):
+            o = obs.setdefault(name, dict(name=name, ok=True, detail=None, cases=0))
+            o["cases"] += 1
+            hit = [x for x in b if key in x]
+            if hit and o["ok"]:
+                o["ok"], o["detail"] = False, hit[0][:300]
+    print(json.dumps(dict(obligations=list(obs.values()), cases=cases, note="fitness sequences with NaN / +-inf / ties, minimise and maximise")))
+
+
 def main():
     p = load()
+    if p.get("mode") == "check":
+        return check_mode(p)
     m = model_of(p)
     ob = p.get("obligation", "")
     g = lambda k, d: int(m[k]) if isinstance(m.get(k), (int, float)) and 1 <= m[k] <= 12 else d  # noqa: E731
